@@ -498,7 +498,8 @@ func (g *TreeGen) commentText() string {
 	case 3:
 		t := genBytes(r, 14)
 		t = strings.ReplaceAll(t, "*/", "* /")
-		t = strings.ReplaceAll(t, "\r", "")
+		// (carriage returns stay: the Go scanner drops them from comments, the text goes on to
+		// the end of the line — the survival test compares without them)
 		t = strings.ReplaceAll(t, "\x00", "")
 		t = strings.ToValidUTF8(t, "")
 		// gofmt itself rewrites `` and '' inside comments to curly quotes (a gofmt behaviour,
@@ -514,7 +515,7 @@ func (g *TreeGen) commentText() string {
 		}
 		return t
 	default:
-		return pick(r, []string{"a comment", "TODO", "unicode: 世界", "quote \" and ` and '", "braces { } ( ) [ ]", "100% done", "50%d of %s", "%", "ends in %"})
+		return pick(r, []string{"a comment", "TODO", "unicode: 世界", "quote \" and ` and '", "braces { } ( ) [ ]", "100% done", "50%d of %s", "%", "ends in %", "cr\rpanic(1)", "crlf\r\nsecond line", "trailing cr\r", "\rleading cr"})
 	}
 }
 
